@@ -320,6 +320,13 @@ func runDsync(r *simkit.Run, c Cfg, mode dsMode) {
 		}))
 	}
 	sopts := []dagsync.Option{dagsync.RecvAnnounce("", ropts...), dagsync.SegmentDepthLimit(seg), dagsync.IdleHandlerTTL(idle)}
+	if mode.name == "c08" && seg > 0 && tp.Chance(1, 2, "adsDepthAbove") {
+		// a depth limit far beyond any chain of the run limits nothing, and
+		// must change nothing: a segmented sync with a limit is the same
+		// sequence of segments as one without
+		sopts = append(sopts, dagsync.AdsDepthLimit(100000))
+		r.Probe("segmented-with-depth-limit-above")
+	}
 	if d.limit > 0 {
 		sopts = append(sopts, dagsync.MaxAsyncConcurrency(d.limit))
 	}
